@@ -20,10 +20,7 @@ import (
 	"syscall"
 	"time"
 
-	"github.com/grailbio/bigslice"
 	"github.com/grailbio/bigslice/exec"
-	"github.com/grailbio/bigslice/sliceio"
-	"github.com/grailbio/bigslice/sortio"
 	"verifh/ev"
 	"verifh/refeval"
 	"verifh/vsys"
@@ -41,14 +38,9 @@ var (
 const hangTimeout = 90 * time.Second
 
 func setChunk(n int) {
-	if err := flag.Set("bigslice-internal-default-chunk-rows", fmt.Sprint(n)); err != nil {
+	if err := refeval.SetChunk(n); err != nil {
 		ev.Fatal("cannot set chunk size: %v", err)
 	}
-	// The root package, sliceio and sortio copied the value at init.
-	bigslice.VerifCommonSetChunk(n)
-	sliceio.VerifCommonSetChunk(n)
-	sortio.VerifCommonSetChunk(n)
-	sliceio.SpillBatchSize = n
 }
 
 type job struct {
@@ -127,7 +119,7 @@ type tally struct {
 	m  map[string]int
 }
 
-func newTally() *tally { return &tally{m: map[string]int{}} }
+func newTally() *tally        { return &tally{m: map[string]int{}} }
 func (t *tally) Add(k string) { t.AddN(k, 1) }
 func (t *tally) AddN(k string, n int) {
 	t.mu.Lock()
@@ -141,7 +133,7 @@ type checker struct {
 	programs   *ev.Counter // distinct programs
 	nontrivial *ev.Counter // distinct programs with >= 1 shuffle that produced >= 1 row
 	results    *ev.Counter // distinct result multisets
-	opRuns     *tally // runs per operator class
+	opRuns     *tally      // runs per operator class
 	srcRuns    *tally
 	opMicros   *tally // run time per last-operator class (microseconds)
 	mu         sync.Mutex
@@ -374,7 +366,7 @@ func space(thorough bool, seed int64) ([]phase, []string) {
 	}
 	// (a) depth <= 1: every operator variant x every source configuration, plus the fixed shapes.
 	ps := refeval.Enumerate(1, refeval.Options{})
-	rule = append(rule, fmt.Sprintf("chunk=%d (a) every chain of <=1 operator over the FULL alphabet (all variants of Map/Filter/Flatmap/Head/Cogroup/Repartition, Reshard to 1,2,3) x every source configuration = 8 source templates (Const, ReaderFunc in 3 read styles, ScanReader with/without final newline) x rows{0,1,3,4,5,9} x key pattern{equal,distinct,colliding} x shards{1,2,3}; plus the fixed DAG shapes (shared sub-slice resharded to two different counts then cogrouped, also with a WriterFunc inside the shared part; shuffles nested below and above a cogroup; 3-way cogroup with one source used twice), each with and without a trailing WriterFunc, over every Const<int,int> configuration", refeval.Chunk))
+	rule = append(rule, fmt.Sprintf("chunk=%d (a) every chain of <=1 operator over the FULL alphabet (all variants of Map/Filter/Flatmap/Head/Cogroup/Repartition, Reshard to 1,2,3) x every source configuration = 8 source templates (Const<int,int>, Const<string,int>, Const<int,int,int>, ReaderFunc in 3 read styles [fill vector + EOF with the last rows; one row per call; empty first call], ScanReader with/without final newline) x rows{0,1,3,4,5,9} x key pattern{equal,distinct,colliding} x shards{1,2,3}; plus the fixed DAG shapes (shared sub-slice resharded to two different counts then cogrouped, also with a WriterFunc inside the shared part; shuffles nested below and above a cogroup; 3-way cogroup with one source used twice), each with and without a trailing WriterFunc, over every Const<int,int> configuration", refeval.Chunk))
 	// (b) depth 2 (and 3): core alphabet.
 	reduced := refeval.Options{
 		Core: refeval.CoreAlphabet(), FullDepth: 0, NoShapes: true,
